@@ -690,6 +690,15 @@ bool TimeZoneInfo::Load(ZoneInfoSource* zip) {
         return false;  // out of order
     }
   }
+  if (hdr.timecnt != 0) {
+    // zic(8) does not generate transitions outside of [-2^59, 2^59] (see
+    // also the discussion of BIG_BANG in NextTransition()), and we depend
+    // on that to keep differences between transition times and arbitrary
+    // time_point<seconds> values representable.
+    if (transitions_.front().unix_time < -(1LL << 59) ||
+        transitions_.back().unix_time > (1LL << 59))
+      return false;
+  }
   bool seen_type_0 = false;
   for (std::size_t i = 0; i != hdr.timecnt; ++i) {
     transitions_[i].type_index = Decode8(bp++);
